@@ -818,7 +818,7 @@ def conditions_at(g, bb, same_loop=False):
     from .mir import path_conditions
     out = []
     again = g.reach_from(g.succ(bb)) if same_loop else None
-    for (sb, val) in path_conditions(g, bb):
+    for (sb, val) in path_conditions(g, bb, resolve=resolve_const_edge):
         if again is not None and sb not in again:
             continue
         st = g.term(sb)
